@@ -68,6 +68,37 @@ def run(ctx):
         else:
             ctx.violate("R1", f"wfn.PRIMITIVE_NAMES is not the duplicate-free set of monomials of degree 0..5 (missing {sorted(set(want) - set(pn))}, extra/duplicate {sorted(x for x in pn if x not in want or list(pn).count(x) > 1)})", relpath=wm.relpath, function="iodata.formats.wfn.PRIMITIVE_NAMES", construct="PRIMITIVE_NAMES")
         # the table it is built from must be the module's CONVENTIONS (same object the writers use)
+    # R6: order and signs of every format table equal the frozen specification
+    import json, os
+    from ..tables import spec_label
+    from ..report import VERIF
+
+    ctx.rule("R6", "format convention tables (order and signs) equal the frozen format specification", "a swapped label or flipped sign mis-reads every real file of that program while IOData's own round trip stays consistent")
+    with open(os.path.join(VERIF, "spec", "conventions.json")) as fh:
+        spec = json.load(fh)
+    seen_spec = set()
+    for label, relpath, lineno, table, f in tabs:
+        lab = spec_label(label)
+        if lab not in spec:
+            if not lab.startswith("iodata.convert._get_default_conventions"):
+                ctx.note(f"convention table {lab} ({relpath}:{lineno}) has no frozen specification entry (new table?)")
+            continue
+        seen_spec.add(lab)
+        for ks, want in spec[lab]["entries"].items():
+            key = (int(ks[:-1]), ks[-1])
+            got = list(table.get(key, [])) if key in table else None
+            if got == want:
+                ctx.ok("R6", f"{lab}[{key}] = specification", f"{relpath}:{lineno}", sample=(key == (3, "p")))
+            else:
+                diff = [f"{i}:{a}->{b}" for i, (a, b) in enumerate(zip(want, got or [])) if a != b][:4]
+                ctx.violate("R6", f"table {lab} entry {key} is {got}, the format specification (spec/conventions.json) says {want} (differences {diff})", func=f, relpath=relpath, function=lab, construct=f"{key}: {got}"[:280])
+                ctx.findings[-1].line = lineno
+        extra = [k for k in table if f"{k[0]}{k[1]}" not in spec[lab]["entries"] and not lab.startswith("iodata.convert.")]
+        for k in extra:
+            ctx.note(f"{lab} has entry {k} that the frozen specification does not list")
+    for lab in spec:
+        if lab not in seen_spec:
+            ctx.violate("R6", f"convention table {lab} of the frozen specification no longer exists in the package", relpath=spec[lab]["source"].split(" ")[0], function=lab, construct="table missing")
     ctx.extra["convention_tables"] = names
     ctx.extra["table_entries"] = nentries
     ctx.extra["labels_checked"] = nlabels
